@@ -3,6 +3,7 @@ package props
 import (
 	"encoding/hex"
 	"fmt"
+	"github.com/xinchentechnote/fin-protoc/verifharness/cli"
 	"os"
 	"path/filepath"
 	"regexp"
@@ -85,6 +86,24 @@ func evalC07(k xCase) []pbt.Violation {
 			if e.OK && d.OK && (d.Dump != x.Ref[i].Canon[0]) {
 				cls, dd := dumpDiff(k.Prog, k.Prog.PacketByName(k.Msgs[i].Packet), d.Dump, x.Ref[i].Canon[0])
 				vs = append(vs, pbt.Violation{Signature: "step-missing:" + l + ":" + cls, Detail: fmt.Sprintf("%s: a declared field is not carried through decode: %s", l, dd)})
+			}
+		}
+	}
+	if k.ViaCLI && cli.Bin() != "" && k.Text == "" && !dsl.Has(k.Prog.Features(), "len") {
+		// "successful" is what the command reports: the same program without its root keyword is
+		// refused by three of the six generators; the command may then fail, but when it reports
+		// success every requested target must have its files
+		q := k.Prog.Clone()
+		q.RootPacket().Root = false
+		all := append(append([]string{}, k.Langs...), "lua")
+		trees, r, dir := compileCLI(dsl.PlainText(q), all, true)
+		os.RemoveAll(dir)
+		if r.Exit == 0 && !r.TimedOut {
+			for _, l := range all {
+				if len(trees[l]) == 0 {
+					vs = append(vs, pbt.Violation{Signature: "cli-success-without-files:" + l, Detail: fmt.Sprintf("the command exits 0 for targets %v of a program without root packet, but wrote no file for %s", all, l)})
+					break
+				}
 			}
 		}
 	}
